@@ -371,6 +371,16 @@ def run_property(pid, tier, seed):
         run_verus_unit(res, un, src, allow)
     for un in (pc.get('verus_thorough', []) if tier == 'thorough' else []):
         run_verus_unit(res, un, src, allow)
+    if pc.get('audit'):
+        import audit
+        r, err = audit.run(src, pc['audit'])
+        if err:
+            res.undecided.append('assumption audit could not run: ' + err)
+        else:
+            res.extra['assumption_audit'] = dict(kind='lexical scan of quad-store mutation sites (an assumption check, not a proof)', sites=r['sites'],
+                                                 enclosing_functions=r['functions'], not_on_allowlist=r['not_on_allowlist'])
+            if r['not_on_allowlist']:
+                res.undecided.append('assumption audit: quad-store mutation site(s) in function(s) outside the committed allow-list: %s - the assumed frame contracts are no longer credible' % ', '.join(r['not_on_allowlist']))
     kus = list(pc.get('kani', []))
     if tier == 'thorough':
         kus += pc.get('kani_thorough', [])
